@@ -86,8 +86,40 @@ pub fn create_introduces_exactly_initial_members() {
     std::mem::forget(s);
 }
 
+/// The same authorisation clauses with access conditions present (C = u8 in {0,1}, optional):
+/// conditions must not open a way around the manager check.
+#[cfg_attr(kani, kani::proof)]
+#[cfg_attr(kani, kani::unwind(5))]
+pub fn any_operation_with_conditions_needs_an_active_manager() {
+    let pre = any_state_cond(N3);
+    let op = sym::any_below(4);
+    let actor = sym::any_below(N3);
+    let target = sym::any_below(N3);
+    let access = any_access_cond();
+    let a_present = pre.members.get(&actor).is_some();
+    let a_active = pre.members.get(&actor).map(|m| m.is_member()).unwrap_or(false);
+    let a_manager = pre.members.get(&actor).map(|m| m.is_manager()).unwrap_or(false);
+    let t_active = pre.members.get(&target).map(|m| m.is_member()).unwrap_or(false);
+    let res = match op {
+        0 => state::add(pre, actor, target, access),
+        1 => state::remove(pre, actor, target),
+        2 => state::promote(pre, actor, target, access),
+        _ => state::demote(pre, actor, target, access),
+    };
+    witness!(res.is_ok(), "witness: an operation with conditions is accepted");
+    if let Ok(post) = &res {
+        let self_remove = op == 1 && actor == target;
+        vassert!(a_present && a_active, "C33.cond-actor-active: with access conditions an accepted operation's author is an active member");
+        vassert!(a_manager || self_remove, "C33.cond-actor-manager: with access conditions an accepted operation's author has Manage access (or removes itself)");
+        let t_now = post.members.get(&target).map(|m| m.is_member()).unwrap_or(false);
+        vassert!(!(t_now && !t_active) || op == 0, "C33.cond-only-add-activates: with access conditions nobody becomes a member unless an accepted add introduced them");
+    }
+    std::mem::forget(res);
+}
+
 pub fn dispatch(name: &str) -> bool {
     match name {
+        "c33::any_operation_with_conditions_needs_an_active_manager" => any_operation_with_conditions_needs_an_active_manager(),
         "c33::add_step" => add_step(),
         "c33::remove_step" => remove_step(),
         "c33::promote_step" => promote_step(),
